@@ -63,3 +63,41 @@ Example C11_null_target_one_spelling :
   wf_program [[AMethod 1 (mkName false 0 false [seg4 0x4d 0x54 0x48 0x30]) 0 [AOp aml_pOpStore [AConst OP_BYTE 5; AConst aml_pOpZero 0]]]] = false /\
   wf_program [[AMethod 1 (mkName false 0 false [seg4 0x4d 0x54 0x48 0x30]) 0 [AOp aml_pOpStore [AConst aml_pOpZero 0; AOp aml_pOpLocal0 []]]]] = true.
 Proof. vm_compute. repeat split; try reflexivity. discriminate. Qed.
+
+(** ... and conversely [ANull] is the NullName, not an expression: as the operand of Return (a TermArg) or as the value of a
+    Name the byte 00 is the constant Zero (the parser builds a Zero object, the view lists it; [ns] would drop an [ANull] or
+    render it as "not an expression"), so [wf_program] accepts it only in the Target / SuperName / SimpleName positions of an
+    operator. *)
+Example C11_null_only_in_target_positions :
+  wf_program [[AMethod 1 (mkName false 0 false [seg4 0x4d 0x54 0x48 0x30]) 0 [AOp aml_pOpReturn [ANull]]]] = false /\
+  wf_program [[AName (mkName false 0 false [seg4 0x41 0x42 0x43 0x44]) ANull]] = false /\
+  wf_program [[AName (mkName false 0 false [seg4 0x41 0x42 0x43 0x44]) (APackage 1 1 [ANull])]] = false /\
+  wf_program [[AMethod 1 (mkName false 0 false [seg4 0x4d 0x54 0x48 0x30]) 0 [AOp aml_pOpReturn [AConst aml_pOpZero 0]]]] = true /\
+  wf_program [[AMethod 1 (mkName false 0 false [seg4 0x4d 0x54 0x48 0x30]) 0 [AOp 0x78 [AConst OP_BYTE 5; AConst aml_pOpOne 0; ANull; AOp aml_pOpLocal0 []]]]] = true.
+Proof. vm_compute. repeat split. Qed.
+
+(** the statement of C11 on the statement shapes that are NOT yet inside a proved fragment (candidates for a fragment F10):
+    Local / Arg objects as operands, operators with a Target that is null or a Local, operators whose first argument is a
+    SuperName (parsed by parseTarget already in the first pass), nested operator expressions - the faithful model builds the
+    specification's namespace on each of them (by computation; no known finding is touched) *)
+Definition f10_M (argc : N) (body : list ast) : list (list ast) := [[AMethod 1 (mkName false 0 false [seg4 0x4d 0x54 0x48 0x30]) argc body]].
+Definition f10_shapes : list (list (list ast)) :=
+  let L n := AOp (0x60 + n) [] in let A n := AOp (0x68 + n) [] in let c5 := AConst OP_BYTE 5 in
+  [ f10_M 0 [AOp aml_pOpReturn [L 0]];
+    f10_M 2 [AOp 0x93 [A 0; c5]];
+    f10_M 0 [AOp aml_pOpStore [c5; L 0]];
+    f10_M 1 [AOp aml_pOpStore [A 0; L 7]];
+    f10_M 0 [AOp aml_pOpAdd [AConst aml_pOpOne 0; AConst OP_BYTE 2; L 1]];
+    f10_M 0 [AOp aml_pOpAdd [AConst aml_pOpOne 0; AConst OP_BYTE 2; ANull]];
+    f10_M 0 [AOp 0x75 [L 0]];
+    f10_M 0 [AOp 0x76 [L 3]];
+    f10_M 0 [AOp 0x80 [c5; ANull]];
+    f10_M 0 [AOp 0x78 [c5; AConst aml_pOpOne 0; ANull; L 2]];
+    f10_M 0 [AOp aml_pOpStore [c5; L 0]; AOp 0x75 [L 0]; AOp aml_pOpReturn [L 0]];
+    f10_M 0 [AOp aml_pOpReturn [AOp aml_pOpAdd [L 0; c5; ANull]]];
+    f10_M 0 [AOp aml_pOpStore [AOp aml_pOpAdd [c5; c5; ANull]; L 0]];
+    f10_M 0 [AOp 0x86 [L 0; c5]];
+    f10_M 0 [AOp 0x9d [c5; L 0]];
+    [[ADevice 1 (mkName false 0 false [seg4 0x44 0x45 0x56 0x30]) [AOp aml_pOpStore [c5; L 0]]]] ].
+Example C11_parse_encode_F10_shapes : forallb wf_program f10_shapes = true /\ Forall parse_encode_statement f10_shapes.
+Proof. split; [vm_compute; reflexivity|]. repeat (constructor; [vm_compute; reflexivity|]). constructor. Qed.
